@@ -316,6 +316,28 @@ func init() {
 				html.PageIndividual(doc, doc.Individuals()[0], html.LivingVisibilityShow, nil)
 		}()
 		fmt.Fprintf(&b, "/-- only the individuals that get a page in the chosen visibility are given a page name -/\ndef keysSkipHidden : Bool := %s\n\n", c19LeanBool(skip))
+		// two records that share a pointer: does each get its own page, whatever order the map has?
+		identity := true
+		for try := 0; try < 24 && identity; try++ {
+			func() {
+				defer func() {
+					if recover() != nil {
+						identity = false
+					}
+				}()
+				doc, err := gedcom.NewDocumentFromString("0 @I1@ INDI\n1 NAME Ann /Smith/\n1 DEAT Y\n0 @I1@ INDI\n1 NAME Bob /Jones/\n1 DEAT Y\n0 @I1@ INDI\n1 NAME Cy /Town/\n1 DEAT Y\n")
+				if err != nil || len(doc.Individuals()) != 3 {
+					identity = false
+					return
+				}
+				for i, want := range []string{"ann-smith.html", "bob-jones.html", "cy-town.html"} {
+					if html.PageIndividual(doc, doc.Individuals()[i], html.LivingVisibilityShow, nil) != want {
+						identity = false
+					}
+				}
+			}()
+		}
+		fmt.Fprintf(&b, "/-- PageIndividual finds the record itself: records that share a pointer keep their own page names -/\ndef pageIndividualByIdentity : Bool := %s\n\n", c19LeanBool(identity))
 		// a person and a place called like fixed pages, a person and a place called like a source
 		avoid := false
 		if names, ok := c19PublishedNames("0 @I1@ INDI\n1 NAME Places\n1 BIRT\n2 PLAC Statistics\n1 DEAT Y\n2 PLAC s1\n0 @I2@ INDI\n1 NAME s2\n1 DEAT Y\n" +
